@@ -52,7 +52,10 @@ func (e *Exec) storeGet(st *StoreState, key *SliceV) *SliceV {
 	tb := e.tb
 	e.storeKeyCheck(key, "store get")
 	if st.recReads {
+		// key capture for observational entry names: the read itself is not performed (no forks);
+		// the reader sees a present, empty value
 		st.reads = append(st.reads, e.snapshotBytes(key))
+		return &SliceV{len: tb.BV(0, 64), gocap: tb.BV(0, 64), isNil: tb.ff}
 	}
 	for i := len(st.log) - 1; i >= 0; i-- {
 		en := st.log[i]
